@@ -315,3 +315,73 @@ def run_sampler(fnode: ast.FunctionDef, functions: Dict[str, ast.FunctionDef], r
     except _Return as r:
         res = r.v
     return res, sh
+
+
+def flat_sum(t) -> Optional[Tuple[Any, ...]]:
+    """the multiset of summands of a nested sum (numeric zeros dropped), sorted; None if t is not a Term / number"""
+    out = []
+
+    def go(x):
+        if isinstance(x, Term) and x[0] == "add":
+            go(x[1])
+            go(x[2])
+        elif isinstance(x, (int, float)) and not isinstance(x, bool):
+            if x != 0:
+                out.append(x)
+        else:
+            out.append(x)
+    go(t)
+    return tuple(sorted(out, key=repr))
+
+
+class SumInterp(ChainInterp):
+    """ChainInterp plus reductions of a list of terms: sum(list), torch.stack(list).sum(0), torch.sum(torch.stack(list), dim=0)"""
+
+    def call(self, c: ast.Call):
+        fn = ast.unparse(c.func)
+        kw = {k.arg: k.value for k in c.keywords if k.arg}
+
+        def total(v):
+            if not (isinstance(v, (list, tuple)) and all(isinstance(x, (Term, int, float)) for x in v)):
+                raise Unsupported("sum of %r" % (v,))
+            acc = 0
+            for x in v:
+                acc = x if (isinstance(acc, (int, float)) and acc == 0) else Term(("add",) + tuple(sorted((acc, x), key=repr)))
+            return acc
+
+        def axis0(args, kws):
+            d = kws.get("dim", kws.get("axis"))
+            d = self.ev(d) if d is not None else (self.ev(args[0]) if args else None)
+            if d not in (0,):
+                raise Unsupported("reduction over axis %r" % (d,))
+        if fn == "sum" and 1 <= len(c.args) <= 2 and not c.keywords:
+            v = total(self.ev(c.args[0]))
+            if len(c.args) == 2:
+                st = self.ev(c.args[1])
+                if not (isinstance(st, (int, float)) and st == 0):
+                    v = Term(("add",) + tuple(sorted((st, v), key=repr)))
+            return v
+        if fn == "torch.sum" and c.args:
+            v = self.ev(c.args[0])
+            if isinstance(v, Buf):
+                axis0(c.args[1:], kw)
+                return total(v)
+        if isinstance(c.func, ast.Attribute) and c.func.attr == "sum":
+            v = self.ev(c.func.value)
+            if isinstance(v, Buf):
+                axis0(c.args, kw)
+                return total(v)
+        if fn == "torch.stack" and c.args:
+            v = self.ev(c.args[0])
+            d = self.ev(kw["dim"]) if "dim" in kw else (self.ev(c.args[1]) if len(c.args) > 1 else 0)
+            if isinstance(v, (list, tuple)) and all(isinstance(x, Term) for x in v) and d == 0:
+                return Buf(v)
+        if fn == "zip" and all(not isinstance(a, ast.Starred) for a in c.args):
+            vs = [self.ev(a) for a in c.args]
+            if all(isinstance(v, (list, tuple)) for v in vs):
+                return [tuple(t) for t in zip(*vs)]
+        if fn == "enumerate" and len(c.args) == 1:
+            v = self.ev(c.args[0])
+            if isinstance(v, (list, tuple)):
+                return [(i, x) for i, x in enumerate(v)]
+        return super().call(c)
